@@ -152,6 +152,9 @@ type vDConn struct {
 	cancelLate           bool // ... at its end instead of its start
 	ctx                  *vCtx
 	silent               bool // the peer never answers
+	refuse               bool // the peer answers 400 (a non-timeout handshake failure)
+	hold                 bool // natively: hold the watcher inside its poisoning SetDeadline until Dial returned (<= 50 ms)
+	watcherIn            bool
 	wrote                []byte
 	resp                 []byte
 	pos                  int
@@ -196,10 +199,22 @@ func (c *vDConn) opEnd(k int) {
 func (c *vDConn) cancelNow() {
 	c.ctx.cancel(context.Canceled)
 	if !vSymbolic() {
-		for i := 0; i < 20 && !c.expired(); i++ {
+		for i := 0; i < 20 && !c.expired() && !(c.hold && c.entered()); i++ {
 			time.Sleep(time.Millisecond)
 		}
 	}
+}
+
+func (c *vDConn) entered() bool {
+	c.mu.Lock()
+	defer c.mu.Unlock()
+	return c.watcherIn
+}
+
+func (c *vDConn) hasReturned() bool {
+	c.mu.Lock()
+	defer c.mu.Unlock()
+	return c.returned
 }
 
 func (c *vDConn) expired() bool {
@@ -220,6 +235,9 @@ func (c *vDConn) Read(p []byte) (int, error) {
 	}
 	c.mu.Lock()
 	defer c.mu.Unlock()
+	if c.resp == nil && c.refuse {
+		c.resp = []byte("HTTP/1.1 400 Bad Request\r\n\r\n")
+	}
 	if c.resp == nil {
 		i := bytes.Index(c.wrote, []byte("Sec-WebSocket-Key: "))
 		key := c.wrote[i+19 : i+19+24]
@@ -245,9 +263,23 @@ func (c *vDConn) Write(p []byte) (int, error) {
 func (c *vDConn) SetDeadline(t time.Time) error {
 	k := c.op()
 	defer c.opEnd(k)
+	if !vSymbolic() && c.hold && !t.IsZero() && t.Before(vRealStart) {
+		// the watcher's poisoning call: keep it inside the call until Dial has returned (a correct
+		// Dial cannot return before the watcher is done, so this just waits out the 50 ms)
+		c.mu.Lock()
+		c.watcherIn = true
+		c.mu.Unlock()
+		for i := 0; i < 50 && !c.hasReturned(); i++ {
+			time.Sleep(time.Millisecond)
+		}
+	}
 	c.mu.Lock()
 	c.dl = t
 	c.setDLs++
+	if c.returned {
+		// the deadline is applied after Dial returned: the connection was touched again
+		c.opsAfter++
+	}
 	c.mu.Unlock()
 	return nil
 }
